@@ -32,7 +32,7 @@ def specs(ctx):
             s["scaler"] = [0.01, 3.0, 250.0][int(rng.integers(3))]
         out.append(s)
     # scripted objectives: e.g. a converged line search whose accepted (lowest) trial is not the last one evaluated
-    out += corpus.scripted_specs(rng, exhaustive_len=2, n_random=ctx.pick(200, 2000))
+    out += corpus.scripted_specs(rng, exhaustive_len=2, n_random=ctx.pick(800, 4000))
     return out
 
 
